@@ -50,7 +50,21 @@ func c05GenList(g *Gen) []*zipuFile {
 	}
 }
 
+// c05LongNameOracle: also state the create-iff clause on entry names at the archive/zip limit of
+// 65535 bytes (finding: Create fails there although CheckFiles reports no error).
+const c05LongNameOracle = true
+
+// c05LongName: one regular file whose path makes "<module>@<version>/<path>" exactly n bytes long.
+func c05LongName(mp, mv string, n int) []*zipuFile {
+	p := strings.Repeat("a", n-len(mp+"@"+mv+"/"))
+	return []*zipuFile{{path: p, mode: 'r', size: 1, content: []byte("x")}}
+}
+
 func genC05(g *Gen, n int) {
+	// the entry-name length limit of archive/zip, both sides of it
+	for _, k := range []int{65535, 65536} {
+		g.Emit("zip.create "+hx("example.com/m")+" "+hx("v1.0.0")+" "+zipuFilesTok(c05LongName("example.com/m", "v1.0.0", k)), true, "name-length-limit")
+	}
 	for g.st.Ops < n {
 		fs := c05GenList(g)
 		mp, mv := zipuPickMod(g.Rand, 8)
@@ -68,6 +82,20 @@ func genC05(g *Gen, n int) {
 }
 
 func oracleC05(g *Gen, n int) {
+	if c05LongNameOracle {
+		m := module.Version{Path: "example.com/m", Version: "v1.0.0"}
+		for _, k := range []int{65535, 65536} {
+			fs := c05LongName(m.Path, m.Version, k)
+			g.Case("create-iff-checkfiles-name-limit")
+			_, cerr := zipuCreate(m, fs)
+			_, cfErr := modzip.CheckFiles(zipuAsFiles(fs))
+			if (cerr == nil) != (cfErr == nil) {
+				g.Fail("C05 create-iff: Create fails on a name longer than 65535 bytes although CheckFiles reports no error",
+					"create="+zipuErrKind(cerr)+" checkfiles-ok="+showBool(cfErr == nil)+" name length "+itoa(k),
+					"zip.create "+hx(m.Path)+" "+hx(m.Version)+" "+zipuFilesTok(fs))
+			}
+		}
+	}
 	for i := 0; i < n; i++ {
 		fs := c05GenList(g)
 		mp, mv := zipuPickMod(g.Rand, 5)
